@@ -236,11 +236,22 @@ def part_subs(ctx, n):
         if t is S.Zero:
             continue
         base = t.args[1] if isinstance(t, Mul) else t
-        old = rng.choice(list(base.upper) + list(base.lower))
-        new = rng.choice(pool)
-        r = base.subs(old, new)
-        u2 = [new if i is old else i for i in base.upper]
-        l2 = [new if i is old else i for i in base.lower]
+        own = list(dict.fromkeys(list(base.upper) + list(base.lower)))
+        if rng.random() < 0.5 and len(own) >= 2:
+            # several indices at once (also exchanges, also two indices of one antisymmetric group): simultaneous substitution
+            olds = rng.sample(own, rng.randint(2, min(3, len(own))))
+            news = [rng.choice(own + pool) for _ in olds] if rng.random() < 0.5 else rng.sample(olds, len(olds))
+            m = dict(zip(olds, news))
+            r = base.subs(m, simultaneous=True)
+            old, new = tuple(olds), tuple(news)
+            ctx.count("simultaneous_substitutions")
+        else:
+            old = rng.choice(own)
+            new = rng.choice(pool)
+            m = {old: new}
+            r = base.subs(old, new)
+        u2 = [m.get(i, i) for i in base.upper]
+        l2 = [m.get(i, i) for i in base.lower]
         ictx = X.IdxCtx()
         for i in u2 + l2:
             ictx.note(i)
